@@ -101,6 +101,36 @@ example :
       = ["ok", "ok", "3 true", "true", "true"] := by
   constructor <;> decide
 
+/-- The zero value `var r Ring[T]` (never `Init`ialised; no capacity was requested, so it
+is outside the property) is NOT an empty ring of capacity 0: `head = tail = 0` makes
+`IsEmpty()` false and `Len()` 1 while `Cap()` is 0, and `IsFull`, `Push`,
+`PushWithExpand` (division by zero in `% r.cap`), `Pop`, `Peek` (index into the nil slice)
+and every `Recap` to a positive capacity (slice bounds) panic.  The case header
+`ring zero` ties exactly this to the code on every run. -/
+theorem c10_ring_zero_value :
+    Ring.zero.isEmpty = false ∧ Ring.zero.len = 1 ∧ Ring.zero.cap = 0 ∧ ¬ Ring.zero.Inv ∧
+    Ring.zero.isFull? = none ∧ (∀ v, Ring.zero.push v = none) ∧
+    (∀ v, Ring.zero.pushWithExpand v = none) ∧ Ring.zero.pop = none ∧ Ring.zero.peek = none ∧
+    (∀ c, Ring.zero.recap c = if c ≤ 0 then some (Ring.zero, false) else none) := by
+  refine ⟨by decide, by decide, rfl, fun h => absurd h.capPos (by decide), by decide,
+    fun _ => rfl, fun _ => rfl, by decide, by decide, ?_⟩
+  intro c
+  by_cases hc : c ≤ 0
+  · rw [if_pos hc]
+    unfold Ring.recap
+    rw [if_pos (Or.inl hc)]
+  · rw [if_neg hc]
+    have h1 : ¬ (c ≤ 0 ∨ c = Ring.zero.cap) := by
+      have : Ring.zero.cap = 0 := rfl
+      omega
+    have h2 : ¬ (c < Ring.zero.len) := by
+      have : Ring.zero.len = 1 := by decide
+      omega
+    unfold Ring.recap
+    rw [if_neg h1]
+    simp only [h2, if_false]
+    simp [Ring.zero, Ring.isEmpty, slice]
+
 /-! ## SyncRing used from one goroutine -/
 
 /-- `NewSync(n).Cap()` for every admissible request `1 ≤ n ≤ 2^31`: the smallest power of
@@ -125,7 +155,8 @@ example : (SyncRing.init? 5).map (·.cap) = some 8 ∧ syncCap (2 ^ 31) = some (
   refine ⟨by decide +kernel, by decide +kernel, by decide +kernel⟩
 
 /-- The single-goroutine SyncRing equals the bounded FIFO for operation sequences of ANY
-length and from ANY absolute counter value: `H` is the ghost, unbounded number of
+length (`push/pop/len/cap/isempty/isfull` and `PushWait/PopWait` with `maxWait ≥ 0`)
+and from ANY absolute counter value: `H` is the ghost, unbounded number of
 elements ever popped; the real `uint32` counters are `H mod 2^32` and `(H+|q|) mod 2^32`
 and the slot sequence numbers are as in `mkSync` (slot `i` holds `(p+1) mod 2^32` if its
 window position `p` is below the tail, else `p mod 2^32`).  So the guarantees hold after
@@ -138,6 +169,56 @@ theorem c10_sync_refines (c e : Nat) (hc : c = 2 ^ e) (he1 : 1 ≤ e) (he31 : e 
         some (mkSync c H' q', ((⟨q, c⟩ : BQ).run (ops.map SOp.toOp)).2) ∧
       ((⟨q, c⟩ : BQ).run (ops.map SOp.toOp)).1 = ⟨q', c⟩ ∧ q'.length ≤ c :=
   sync_run_refines ⟨hc, he1, he31⟩ ops H q hq
+
+/-- `PushWait` / `PopWait` on every canonical state (every absolute counter value), for
+every `maxWait`, every sequence of tick times the clock delivers and every amount of
+spinning: with `maxWait ≥ 0` (and a clock that reaches `maxWait`) they do and return exactly
+what `Push` / `Pop` do — `true` iff fewer than `Cap()` elements are held, the oldest element
+iff non-empty; with `maxWait < 0` they return at the first attempt when the ring is not
+full / not empty and otherwise never return (one goroutine: nobody else can make room).
+Waits with `maxWait ≥ 0` are also operations of `c10_sync_refines` (`SOp.pushW/popW`). -/
+theorem c10_sync_wait (c e : Nat) (hc : c = 2 ^ e) (he1 : 1 ≤ e) (he31 : e ≤ 31)
+    (H : Nat) (q : List Int) (hq : q.length ≤ c) (v w : Int) (ticks : List Int) (fuel : Nat) :
+    (0 ≤ w → (w = 0 ∨ ∃ t ∈ ticks, w ≤ t) →
+      (mkSync c H q).pushWait v w ticks fuel = some (.done
+        (if q.length < c then (mkSync c H (q ++ [v]), true) else (mkSync c H q, false))) ∧
+      (mkSync c H q).popWait w ticks fuel = some (.done
+        (match q with
+         | [] => (mkSync c H [], 0, false)
+         | x :: q' => (mkSync c (H + 1) q', x, true)))) ∧
+    (w < 0 → 0 < fuel →
+      (mkSync c H q).pushWait v w ticks fuel =
+        some (if q.length < c then .done (mkSync c H (q ++ [v]), true) else .blocks) ∧
+      (mkSync c H q).popWait w ticks fuel = some
+        (match q with
+         | [] => .blocks
+         | x :: q' => .done (mkSync c (H + 1) q', x, true))) := by
+  have g : Geom c e := ⟨hc, he1, he31⟩
+  have hpush := push_mk g H q v hq
+  refine ⟨fun hw ht => ⟨?_, ?_⟩, fun hw hf => ⟨?_, ?_⟩⟩
+  · rw [pushWait_nonneg _ v w ticks fuel hw ht, hpush]; rfl
+  · rw [popWait_nonneg _ w ticks fuel hw ht]
+    cases q with
+    | nil => rw [pop_mk_nil g H]; rfl
+    | cons x q' => rw [pop_mk_cons g H x q' hq]; rfl
+  · by_cases hlt : q.length < c
+    · simp only [hlt, if_true] at hpush ⊢
+      exact (pushWait_neg _ v w ticks hw).1 _ hpush fuel hf
+    · simp only [hlt, if_false] at hpush ⊢
+      exact (pushWait_neg _ v w ticks hw).2 _ hpush fuel
+  · cases q with
+    | nil => exact (popWait_neg _ w ticks hw).2 _ _ (pop_mk_nil g H) fuel
+    | cons x q' => exact (popWait_neg _ w ticks hw).1 _ _ (pop_mk_cons g H x q' hq) fuel hf
+
+/-- Non-vacuity: a full ring of capacity 2 at the 2^32 boundary: `PushWait(9, 25ms)` gives
+up after the ticks 10, 20, 30, `PushWait(9, -1)` does not return, `PopWait(-1)` returns the
+oldest element. -/
+example :
+    (mkSync 2 (2 ^ 32 - 1) [7, 8]).pushWait 9 25 [10, 20, 30] 0
+      = some (.done (mkSync 2 (2 ^ 32 - 1) [7, 8], false)) ∧
+    (mkSync 2 (2 ^ 32 - 1) [7, 8]).pushWait 9 (-1) [] 5 = some .blocks ∧
+    (mkSync 2 (2 ^ 32 - 1) [7, 8]).popWait (-1) [] 5 = some (.done (mkSync 2 (2 ^ 32) [8], 7, true)) := by
+  refine ⟨by decide +kernel, by decide +kernel, by decide +kernel⟩
 
 /-- From `NewSync(n)`: every history of a fresh SyncRing is a history of the bounded FIFO
 whose capacity is the least power of two ≥ max 2 n. -/
